@@ -281,7 +281,7 @@ func evolveCmd(args []string) int {
 			}
 			// the generation's population, genome by genome
 			res := &result{}
-			if pn := vhu.Guard(func() { popRoundTrip(all, nil, nil, res) }); pn != "" {
+			if pn := vhu.Guard(func() { popRoundTrip(all, nil, nil, res); bySpeciesRoundTrip(pop, res) }); pn != "" {
 				res.fail("codec/evolved/panic", "population round trip panicked: %s", pn)
 			}
 			rep.Evaluations += res.evals
@@ -310,4 +310,44 @@ func evolveCmd(args []string) int {
 	rep.Extra["divergences"] = ndiv
 	rep.Extra["divergence_samples"] = divSamples
 	return rep.Write(*out)
+}
+
+// bySpeciesRoundTrip: Population.WriteBySpecies (species and organism comments, organisms in species order) ->
+// ReadPopulation restores the same genomes (matched by genome id).
+func bySpeciesRoundTrip(pop *genetics.Population, res *result) {
+	var buf bytes.Buffer
+	res.evals++
+	if err := pop.WriteBySpecies(&buf); err != nil {
+		res.fail("codec/population/write", "Population.WriteBySpecies failed: %v", err)
+		return
+	}
+	back, err := genetics.ReadPopulation(bytes.NewReader(buf.Bytes()), vhu.BaseOptions(len(pop.Organisms)))
+	if err != nil {
+		res.fail("codec/population/read", "ReadPopulation rejects what Population.WriteBySpecies wrote: %v", err)
+		return
+	}
+	if len(back.Organisms) != len(pop.Organisms) {
+		res.fail("codec/population/roundtrip", "ReadPopulation restored %d genomes of the %d written by species", len(back.Organisms), len(pop.Organisms))
+		return
+	}
+	byId := map[int]*genetics.Genome{}
+	for _, o := range back.Organisms {
+		byId[o.Genotype.Id] = o.Genotype
+	}
+	for _, o := range pop.Organisms {
+		b, ok := byId[o.Genotype.Id]
+		if !ok {
+			res.fail("codec/population/roundtrip", "genome %d written by species is not restored", o.Genotype.Id)
+			return
+		}
+		want, got := project(o.Genotype, false), project(b, false)
+		if d := diffGenomes(want, got, true); len(d) > 0 {
+			sig := "codec/population/roundtrip"
+			if firstLineLost(want, got) {
+				sig = "population roundtrip first-line"
+			}
+			res.fail(sig, "population written by species does not restore genome %d: %s", o.Genotype.Id, strings.Join(d, "; "))
+			return
+		}
+	}
 }
